@@ -18,6 +18,10 @@ def add_indefinite_article(phrase):
     Returns:
         str: Either "an" or "a".
     """
+    # Nothing to put an article in front of (e.g. the name of a class created
+    # with ``type('', (Exception,), {})``)
+    if not phrase:
+        return phrase
     # Note: Must cast to string because it could be a SandboxResult
     if str(phrase[0]) in "aeiou":
         return "an "+phrase
